@@ -31,6 +31,9 @@ def _run(ctx, w):
     from rules import c02
     c02.relayout_clears_wrap(ctx, w, S, R, "Y10")
     shared.mode_arm_siblings(ctx, w, S, R, "Y11")
+    # where a wrapping character scrolls depends on the bottom margin: its validity and its reset on height changes
+    from rules import c05 as _c05
+    _c05.margin_rules(ctx, w, S, R)
 
 
 def charset_rules(ctx, w):
@@ -329,6 +332,7 @@ def print_rules(ctx, w, S, R):
                     gs = [(WD.strip_names(c), v) for c, v in w.guards_of(rh, cs.point[0])]
                     ctx.check(any(c == ("binop", "Gt", col_t, ("const", 0)) and v is True for c, v in gs), "Y6", rh + ":guard", "REP reads the cell left of the cursor without checking col > 0", loc=w.site_loc(cs))
     ctx.floor("Y6", 3, "REP obligations")
+    shared.count_passthrough(ctx, w, S, R, "Y6c", ["Rep"])
 
 
 def flatten(t, acc=None):
